@@ -167,7 +167,7 @@ func VfC16_mirror_q1() {
 }
 
 func VfC16_mirror_t() {
-	vfMirrorRun(vfRunCfg{pre: vfPreCfg{nNH: 1, nNHG: 1, nTop: 1, nHeld: 1, members: 1, topKinds: vfTopAll}, rich: true, steps: 1, members: 2})
+	vfMirrorRun(vfRunCfg{pre: vfPreCfg{nNH: 1, nNHG: 1, nTop: 1, members: 1, topKinds: vfTopAll}, rich: true, fixLow: true, steps: 1, members: 2})
 }
 
 // VfC16_flush: notifications issued by Flush.
